@@ -417,10 +417,37 @@ def rule_renames(ctx):
         gets = [e.a for e in p.calls('__getitem__') if 'super' in T.show(e.a[1])]
         if sets and gets and sets[0][2][-1] == gets[0]:
             ok = True
-    if ok:
-        ctx.holds('R6', 'rename_keys moves the stored object itself')
-    else:
+        for c in sets:
+            v = c[2][-1]
+            # [(old, new, super().__getitem__(old)) for ...] first, then super().__setitem__(new, val) with val the fetched object
+            if v[0] == 'item' and isinstance(v[2], int) and v[1][0] == 'elem' and v[1][1][0] == 'comp' and v[1][1][2][0] == 'tuple' and v[2] < len(v[1][1][2][1]):
+                src = v[1][1][2][1][v[2]]
+                if src[0] == 'call' and T.call_name(src) == '__getitem__' and 'super' in T.show(src[1]):
+                    ok = True
+    # key collisions: moving a variable onto a key that another variable keeps overwrites that variable through the raw dict store - its dimensions stay
+    # behind in ds.dims although no variable uses them; and `{a: b, b: a}` must not lose a variable (all values fetched / removed before any is stored)
+    evf = run(ctx, fi, bind={'inplace': T.CONST_TRUE}, mode='fork', max_paths=20000)
+    refuses = any(exc_name(q.value) in ('ValueError', 'KeyError') and any(
+        (a[0] == 'cmp' and a[1] == 'in' and pol is True and 'keys' in T.show(a)) or (a[0] == 'cmp' and a[1] == '==' and 'len(' in T.show(a) and 'set(' in T.show(a) and pol is False) or
+        (a[0] == 'call' and T.dotted(a[1]) == 'any' and pol is True) for a, pol in q.guards) for q in raise_paths(evf))
+    interleaved = None
+    for p in ev.paths:
+        for e in p.calls('__setitem__'):
+            if 'super' in T.show(e.a[1]) and e.loops:
+                # the value stored comes from a lookup made in the *same* loop iteration -> lookups and stores alternate
+                v = e.a[2][-1]
+                if v[0] == 'call' and T.call_name(v) == '__getitem__':
+                    interleaved = e
+    if not ok:
         ctx.violated('R6', fi, 'rename_keys', 'rename_keys must move the stored value (same object) under the new key')
+    elif not refuses:
+        ctx.violated('R6', fi, 'rename onto an existing key', 'rename_keys stores a variable under its new key without testing that the key is free: rename_keys({\'a\': \'b\'}) overwrites '
+                     'variable b through the raw dict store, and b\'s own dimensions stay in ds.dims although no variable uses them', node=fi.node)
+    elif interleaved is not None:
+        ctx.violated('R6', fi, 'lookups and stores alternate', 'each variable is fetched and stored inside the same loop: a swap {a: b, b: a} stores a under b and then fetches "b" - the '
+                     'variable it has just stored; fetch (and remove) all values before storing any', node=interleaved.node)
+    else:
+        ctx.holds('R6', 'rename_keys moves the stored objects themselves, refuses occupied keys, fetches all values before storing any')
 
 
 def rule_init(ctx):
